@@ -294,7 +294,7 @@ def main(prop, tier, seed, replay):
         obligations.append((f"coq: pinned statements of {prop} re-checked", ok_pin, "" if ok_pin else pout[-1500:]))
         for t in thms:
             obligations.append((f"theorem {t['name']}", ok_pin, t["assumptions"]))
-    ok_drv, drv_key = vlib.build_driver(log) if ok_coq else (False, "")
+    ok_drv, drv_key = vlib.build_driver(log)
     obligations.append(("extraction: extracted model compiles", ok_drv, ""))
     exes = {}
     for prof in ("debug", "release"):
